@@ -269,6 +269,59 @@ func fmtItems(items []streamItem) string {
 	return strings.TrimSpace(sb.String())
 }
 
+// streamDemand judges a delivered sequence by what C09 states; want is the model's sequence (its documents are the
+// stream's documents when the reader does not fail).
+func streamDemand(got, want []streamItem, readerFails bool) string {
+	var gd, wd []int
+	terms := 0
+	for i, it := range got {
+		switch it.kind {
+		case "val":
+			if terms > 0 {
+				return "a value was delivered after the terminal error"
+			}
+			gd = append(gd, it.docs...)
+		case "other":
+			return "an error that is neither io.EOF nor the reader's error was delivered: " + it.err
+		default:
+			terms++
+			if i != len(got)-1 {
+				return "the terminal error is not the last item"
+			}
+			if (it.kind == "ERR") != readerFails {
+				return "wrong terminal error: " + it.kind
+			}
+		}
+	}
+	if terms != 1 {
+		return fmt.Sprintf("%d terminal errors delivered, want exactly one", terms)
+	}
+	for _, it := range want {
+		wd = append(wd, it.docs...)
+	}
+	if readerFails {
+		// any prefix of the stream's documents; the model's run delivered a prefix as well, so compare against the longer of the
+		// two being consistent: got must be a prefix of want or want a prefix of got (both are prefixes of the same stream)
+		n := len(gd)
+		if len(wd) < n {
+			n = len(wd)
+		}
+		if fmt.Sprint(gd[:n]) != fmt.Sprint(wd[:n]) {
+			return "the documents delivered before the reader's error are not a prefix of the stream's documents"
+		}
+		for k := 1; k < len(gd); k++ {
+			if gd[k] <= gd[k-1] {
+				return "documents repeated or out of order"
+			}
+		}
+		return ""
+	}
+	if fmt.Sprint(gd) != fmt.Sprint(wd) {
+		return "the delivered documents are not exactly the stream's documents in order"
+	}
+	return ""
+}
+
 func parseInts(s string) []int {
 	var out []int
 	for _, f := range strings.Split(s, ",") {
@@ -362,7 +415,14 @@ func gstream(args []string) error {
 			rep.Add(run.Mismatch{Property: *prop, Sig: "noclose:" + sig, Cfg: cfg, Want: "channel closed", Got: "open"})
 		}
 		if fmtItems(got) != fmtItems(b.want) {
-			rep.Add(run.Mismatch{Property: *prop, Sig: "delivered:" + sig, Cfg: cfg, Want: fmtItems(b.want), Got: fmtItems(got)})
+			// Demanded by the property: the documents of the values, in order, are all documents (clean stream) or a prefix
+			// (failing reader); exactly one terminal item, last, io.EOF resp. the reader's error.  How documents are grouped
+			// into values (chunk boundaries) is the model's precision only: specification drift.
+			if why := streamDemand(got, b.want, b.errAt >= 0 && b.errAt <= len(data)); why != "" {
+				rep.Add(run.Mismatch{Property: *prop, Sig: "delivered:" + sig, Cfg: cfg, Want: fmtItems(b.want), Got: fmtItems(got), Detail: why})
+			} else {
+				rep.Count("stream_groupings_not_as_specified", 1)
+			}
 		}
 		if len(b.frags) >= 2 {
 			rep.Nontrivial++
